@@ -538,6 +538,17 @@ def judge (d : DState) : Verdict × DState :=
           let v := v.check "C10" "C10_msgsOK" (C10_msgsOK env c implResp)
           let v := if sane s then v.check "C11" "sane" (sane s') else v
           let v := v.check "C11" "C11_frameOK" (bookSame && s'.version == s.version)
+          -- whatever kind of request changes the configuration: market parameters never move, a
+          -- side's fee rate and required attributes not while it has an open order, no approver is
+          -- dropped while any order is open, the role lists never become empty
+          let i := s.info
+          let i' := s'.info
+          let v := v.check "C12" "C12_configFrozen"
+            (marketSame i i' &&
+             (s.asks.isEmpty || (sameRate i.askFee i'.askFee && i'.askAttrs == i.askAttrs)) &&
+             (s.bids.isEmpty || (sameRate i.bidFee i'.bidFee && i'.bidAttrs == i.bidAttrs)) &&
+             ((s.asks.isEmpty && s.bids.isEmpty) || subsetS i.approvers i'.approvers) &&
+             (i' == i || (!i'.approvers.isEmpty && !i'.executors.isEmpty)))
           -- nobody but an executor operates on the book or the configuration
           v.check "C05" "C05_unmodelled_effect" (memS sender s.info.executors)
       (v, d)
